@@ -193,6 +193,80 @@ func enrich(h *verifx.H, r *verifx.Rng, v reflect.Value, utf8 bool, depth int) {
 
 // ---------------------------------------------------------------- helpers
 
+// diffVal: structural comparison of two generated values; nil and empty slices/maps are the same value; of a union
+// (struct with an unexported `index`) only the index is compared — the unselected alternatives are not part of the value.
+// Returns the path of the first difference, "" if equal.
+func diffVal(a, b reflect.Value, path string) string {
+	if a.Kind() != b.Kind() {
+		return path + " (kind)"
+	}
+	switch a.Kind() {
+	case reflect.Ptr, reflect.Interface:
+		if a.IsNil() || b.IsNil() {
+			if a.IsNil() != b.IsNil() {
+				return path + " (nil)"
+			}
+			return ""
+		}
+		return diffVal(a.Elem(), b.Elem(), path)
+	case reflect.Struct:
+		if f := a.FieldByName("index"); f.IsValid() {
+			if f.Int() != b.FieldByName("index").Int() {
+				return path + ".index"
+			}
+			return ""
+		}
+		for i := 0; i < a.NumField(); i++ {
+			if d := diffVal(a.Field(i), b.Field(i), path+"."+a.Type().Field(i).Name); d != "" {
+				return d
+			}
+		}
+	case reflect.Slice, reflect.Array:
+		if a.Len() != b.Len() {
+			return fmt.Sprintf("%s (len %d vs %d)", path, a.Len(), b.Len())
+		}
+		for i := 0; i < a.Len(); i++ {
+			if d := diffVal(a.Index(i), b.Index(i), fmt.Sprintf("%s[%d]", path, i)); d != "" {
+				return d
+			}
+		}
+	case reflect.Map:
+		if a.Len() != b.Len() {
+			return path + " (map len)"
+		}
+		for _, k := range a.MapKeys() {
+			bv := b.MapIndex(k)
+			if !bv.IsValid() {
+				return path + " (map key)"
+			}
+			if d := diffVal(a.MapIndex(k), bv, path+"[k]"); d != "" {
+				return d
+			}
+		}
+	case reflect.String:
+		if a.String() != b.String() {
+			return path
+		}
+	case reflect.Bool:
+		if a.Bool() != b.Bool() {
+			return path
+		}
+	case reflect.Int, reflect.Int8, reflect.Int16, reflect.Int32, reflect.Int64:
+		if a.Int() != b.Int() {
+			return path
+		}
+	case reflect.Uint, reflect.Uint8, reflect.Uint16, reflect.Uint32, reflect.Uint64:
+		if a.Uint() != b.Uint() {
+			return path
+		}
+	case reflect.Float32, reflect.Float64:
+		if math.Float64bits(a.Float()) != math.Float64bits(b.Float()) {
+			return path
+		}
+	}
+	return ""
+}
+
 func try(f func() error) (err error) {
 	defer func() {
 		if p := recover(); p != nil {
@@ -454,6 +528,15 @@ func (c *ctx) tlCase(it verifc14.Item, r *verifx.Rng) {
 			h.Viol("tl1-dirty-read:"+key, "reading into a used object failed: %v", err)
 		} else if re, err := writeBare(o); err != nil || !sameBytes(re, b) {
 			h.Viol("tl1-dirty-read:"+key, "reading into a used object gives another value: %s -> %s (%v)", short(b), short(re), err)
+		} else {
+			// the object itself (not only its encoding) must equal a freshly read one: fields that are absent under the
+			// new mask must not keep their old contents
+			fresh := it.New()
+			if _, err := readTL1(fresh, false, b); err == nil {
+				if where := diffVal(reflect.ValueOf(fresh), reflect.ValueOf(o), "v"); where != "" {
+					h.Viol("tl1-dirty-read-state:"+key, "object read into a used value differs from a freshly read one at %s (bytes %s)", where, short(b))
+				}
+			}
 		}
 	}
 	// (3) JSON
@@ -667,7 +750,7 @@ func (c *ctx) frameCase(r *verifx.Rng, big bool, bigIdx int) {
 	const maxU = data_model.MaxUncompressedBucketSize
 	// payload
 	var x []byte
-	kind := r.Pick(1, 3, 3, 2, 2)
+	kind := r.Pick(1, 3, 3, 2, 2, 0, 2)
 	if big {
 		kind = 5
 	}
@@ -682,6 +765,19 @@ func (c *ctx) frameCase(r *verifx.Rng, big bool, bigIdx int) {
 		x = bytes.Repeat([]byte{byte(r.U64())}, r.Range(1, 24)) // around the compressed >= original boundary
 	case 4:
 		x = append(bytes.Repeat([]byte("metric"), r.Range(1, 40)), r.Bytes(r.Range(0, 40))...)
+	case 6: // compressed size exactly equal to the original size (the `>=` in CompressAndFrame): searched for
+		// a single 4..6 byte match saves exactly what its token and offset cost when both literal runs stay below 15
+		x = r.Bytes(20)
+	search:
+		for try := 0; try < 40; try++ {
+			pre := r.Bytes(r.Range(4, 6))
+			cand := append(append(append(append([]byte{}, pre...), r.Bytes(r.Range(0, 6))...), pre...), r.Bytes(r.Range(12, 14))...)
+			if len(lzCompress(cand)) == len(cand) {
+				x = cand
+				h.Stat("frame.lz-equal-size", 1)
+				break search
+			}
+		}
 	case 5: // at the size limit (Go only: too long for the list based model driver)
 		size := maxU + []int{0, -1, 1}[bigIdx%3] // exactly at, just below, just above MaxUncompressedBucketSize
 		x = bytes.Repeat([]byte{byte(r.U64()), 7}, size/2+1)[:size]
